@@ -62,7 +62,25 @@ def main() -> int:
         print(f"INFRASTRUCTURE-ERROR property={a.prop}: {exc}", file=sys.stderr)
         return 2
     except Exception:  # noqa: BLE001
-        traceback.print_exc()
+        tb = traceback.format_exc()
+        sys.stderr.write(tb)
+        repo_frames = [ln for ln in tb.splitlines() if ln.strip().startswith("File") and (str(vcore.REPO) + "/spsdk") in ln]
+        if repo_frames:
+            # The real code raised where it did not on the unchanged tree: the correspondence run is broken.  No concrete
+            # property-violating input was isolated, so this is reported as "no-failing-input-found" with the traceback as replay.
+            rd = vcore.VERIF / "replays"
+            rd.mkdir(exist_ok=True)
+            path = rd / f"{a.prop}-{a.tier}-{seed}-crash.json"
+            path.write_text(json.dumps({"property": a.prop, "kind": "implementation-raised-inside-correspondence-run",
+                                        "no_longer_checks": ["correspondence/oracle run aborted by an exception raised inside /repo code"],
+                                        "traceback": tb[-6000:], "seed": seed, "tier": a.tier}, indent=1))
+            try:
+                ck.broken.append("correspondence run aborted by an exception raised inside the implementation: " + tb.strip().splitlines()[-1][:300])
+                ck.write_evidence(1, {})
+            except Exception:  # noqa: BLE001
+                pass
+            print(f"VIOLATION property={a.prop} replay={path} no-failing-input-found")
+            return 1
         print(f"INFRASTRUCTURE-ERROR property={a.prop}: harness crashed (not a verdict)", file=sys.stderr)
         return 2
     finally:
